@@ -2,19 +2,28 @@
 
 Model: lean/PypyrModel/PyNs.lean (binding-only mini-language, CPython 3.12 name-operation scheme over
 pypyr's namespace objects). Theorems: lean/Props/C14.lean. This module is the correspondence:
-generated sessions (a context, optional pyimport, `!py` expressions, `pypyr.steps.py` blocks) are run
-through the Lean model (driver op `pyns.session`) and through the REAL `PyString.get_value`,
-`pypyr.steps.py.run_step`, `pypyr.steps.pyimport.run_step`; every namespace binds distinct marker
-objects, so the result of an expression shows which namespace each read hit; the context's key list
-and the identity of every value are compared after every op.
+generated sessions (a context, then any mix of pyimport, `!py` expressions, `pypyr.steps.py` blocks,
+context updates / deletions, contextclearall and rehydration of the Context object by pickle /
+deepcopy / copy — all on ONE Context) are run through the Lean model (driver op `pyns.session`) and
+through the REAL `PyString.get_value`, `pypyr.steps.py.run_step`, `pypyr.steps.pyimport.run_step`,
+`pypyr.steps.contextclearall.run_step`, `Context.__getstate__/__setstate__`; every namespace binds
+distinct marker objects, so the result of an expression shows which namespace each read hit; the
+context's key list and the identity of every value are compared after every op.
 
 Monitors (implementation alone, from the property text):
   M1  a `!py` evaluation leaves the context's key list and every binding (by identity) unchanged
   M2  after a py block: no key removed; every key added or rebound is one the block names in a save(...)
-  M3  a `!py` expression without module-scope assignment expressions evaluates to what plain Python
-      gives when context keys, then pyimport names, then builtins are global variables (provenance of
-      every read that reaches the result; context key beats import beats builtin; every nesting)
+  M3  EVERY `!py` expression (assignment expressions included; not the ones that mutate) evaluates to
+      what plain Python gives when, at that moment, context keys, then the names pyimport was asked to
+      import (the harness's own record), then builtins are global variables of a throw-away namespace
+      (provenance of every read that reaches the result; context key beats import beats builtin; every
+      nesting; what the expression binds itself shadows for its own later reads only). Sessions of
+      several evaluations: a binding an earlier expression left anywhere shows up here.
+  M4  after pyimport (also on a rehydrated Context): every imported name not hidden by a context key
+      reads as the imported object, at top level and from a lambda; after contextclearall: the wiped
+      names are NameErrors
   M5  pyimport leaves the context unchanged
+  M6  pickle round trip / deepcopy / copy of the Context keeps keys, order and values (identity for copy)
 """
 from __future__ import annotations
 
@@ -38,11 +47,19 @@ ASSUMPTIONS = ['PyNs is a model of name binding, not of Python: values are opaqu
                'pycode form of pypyr.steps.py not modelled (it is handed the context on purpose)',
                'keys `save` and `__builtins__` are hidden from a py block by design (ADR 0001); counted, not judged',
                'calling / iterating / += on real builtins and pypyr-injected objects is outside the modelled '
-               'domain (model answers OutOfDomain, case skipped)']
-
-LEFTOVER_SIG = {'site': 'get_eval_string', 'construct': 'walrus-in-comprehension',
-                'effect': 'persists-in-namespace-dict'}
-
+               'domain (model answers OutOfDomain, the comparison stops there; monitors go on)',
+               'calling a function object made by an EARLIER evaluation / py block (its __globals__ is that '
+               "run's dead namespace object) is outside the modelled domain (OutOfDomain, as above)",
+               'a context key `__builtins__` is hidden from `!py` by the own entry of the eval namespace object '
+               '(since 2f08756; reads give the builtins dict); counted, not judged — plain Python cannot hold a '
+               'variable of that name in globals either',
+               'CPython 3.12.1 compiles some programs with sibling inlined comprehensions against merged symbols '
+               '(UnboundLocalError for a global; PyNs.lean E9): detected syntactically with an over-approximation '
+               '(impl_c14.inlining_quirk), the model comparison stops before such an op (counted), monitors go on',
+               'programs that rebind `__builtins__` are rejected by the driver (counted)',
+               'rehydration: marker objects and the two scratch import modules pickle / deep-copy by reference '
+               '(real modules do not pickle at all); a context whose cargo does not pickle falls back to '
+               'deepcopy, then copy']
 
 # --------------------------------------------------------------------------
 # directed sessions
@@ -146,6 +163,44 @@ def directed():
     S([PI(('from', 'c14m1', 'n1', None)), X(Ex(App(N('obs'), N('n1')))), E(N('n1'))], kind='exec')
     S([X(As('x', N('a')), Def('f', [], [], N('x')), Cls('Cq', []), Imp(('import', 'c14m1', None))),
        E(T(N('x'))), E(N('f')), E(N('Cq')), E(N('c14m1')), E(N('save'))], kind='exec')
+    # several evaluations on one context: what an expression binds with := shadows a key for its own later
+    # reads in every scope, and is gone afterwards; context updates in between are what later reads see
+    def SET(*kvs): return {'ctxset': [list(kv) for kv in kvs]}
+    def DEL(*ks): return {'ctxdel': list(ks)}
+    def RH(kind): return {'rehydrate': kind}
+    CLR = {'clearall': True}
+    S([E(T(W('a', N('b')), N('a'), Call(Lam([], N('a'))), Comp(N('a'), [('i', N('T'), [])], gen=True))),
+       E(T(N('a'), Call(Lam([], N('a')))))], kind='mixed')
+    S([E(Comp(N('y'), [('i', N('T'), [W('y', N('i'))])])), E(T(N('y'), Call(Lam([], N('y')))))], kind='mixed')
+    S([E(T(Comp(W('y', N('i')), [('i', N('T'), [])]), N('y'), Call(Lam([], N('y'))))), E(N('y'))], kind='mixed')
+    S([E(W('x', N('a'))), SET(('x', tok('ctx', 'x#1'))), E(T(N('x'), Call(Lam([], N('x'))))),
+       E(W('x', N('b'))), SET(('x', tok('ctx', 'x#2'))), E(N('x')), DEL('x'), E(N('x'))], kind='mixed')
+    S([E(Comp(W('z', N('i')), [('i', N('T'), [])])), SET(('z', tok('ctx', 'z#1'))), E(T(N('z'), Call(Lam([], N('z'))))),
+       DEL('z'), E(N('z')), E(Call(Lam([], N('z'))))], kind='mixed')
+    S([E(Call(Lam([], W('q', N('a'))))), E(N('q')), SET(('q', 0)), E(N('q'))], kind='mixed')
+    S([E(W('n1', N('a'))), SET(('pyImport', tok('special', 'pyImport'))), PI(('from', 'c14m1', 'n1', None)),
+       E(T(N('n1'), Call(Lam([], N('n1'))))), E(W('len', N('a'))), E(T(N('len'), Call(Lam([], N('len')))))],
+      ctx=[['a', tok('ctx', 'a')], ['T', ref(0)]], kind='mixed')
+    # rehydration of the Context object between pyimport / !py / py blocks
+    for how in ('pickle', 'deepcopy', 'copy'):
+        S([PI(('from', 'c14m1', 'n1', None)), RH(how), E(T(N('n1'), N('a'), Call(Lam([], T(N('n1'), N('a')))))),
+           PI(('from', 'c14m2', 'n2', None), ('import', 'c14m2', 'x')),
+           E(T(N('n1'), N('n2'), N('x'), Call(Lam([], T(N('n2'), N('x')))))),
+           E(Comp(T(N('i'), N('n2')), [('i', N('T'), [])], gen=True)), E(App(N('L'), N('n2'))), E(N('L'))],
+          kind='mixed')
+        S([RH(how), PI(('from', 'c14m1', 'n1', None)), E(N('n1')), SET(('n1', tok('ctx', 'n1#1'))), E(N('n1')),
+           RH(how), E(T(N('n1'), Call(Lam([], N('n1'))))), DEL('n1'), E(N('n1'))], kind='mixed')
+        S([PI(('from', 'c14m1', 'n1', None)), RH(how), CLR, E(N('n1')), E(N('a')),
+           SET(('pyImport', tok('special', 'pyImport'))), PI(('from', 'c14m2', 'n2', None)), E(T(N('n2'))), E(N('n1'))],
+          kind='mixed')
+        S([RH(how), SET(('py', tok('special', 'py'))), X(As('x', N('a')), Ex(App(N('L'), N('x'))), Save(['x'])),
+           E(T(N('x'), N('L'))), RH(how), E(App(N('L'), N('b'))), E(N('L')),
+           E(T(W('x', N('b')), N('x'))), E(N('x'))], kind='mixed')
+    S([PI(('from', 'c14m1', 'n1', None)), CLR, E(N('n1')), E(Call(Lam([], N('n1'))))], kind='mixed')
+    # a function object of an earlier run called later: outside the modelled domain (monitors still judge)
+    S([X(Def('f', [], [], N('a')), Save(['f'])), SET(('a', tok('ctx', 'a#1'))), E(Call(N('f'))), E(N('a'))], kind='exec')
+    S([E(App(N('L'), Lam([], N('a')))), E(Comp(Call(N('g')), [('g', N('L'), [])]))],
+      ctx=[['a', tok('ctx', 'a')], ['L', ref(2)]], kind='mixed')
     return out
 
 
@@ -153,7 +208,7 @@ def directed():
 # running cases
 # --------------------------------------------------------------------------
 
-class Hang(Exception):
+class Hang(BaseException):
     pass
 
 
@@ -161,14 +216,23 @@ def _alarm(signum, frame):
     raise Hang()
 
 
-def check_cases(driver, cases, sink, known_leftover):
+def check_cases(driver, cases, sink):
     """Run a batch through model and implementation. `sink` collects results."""
     reqs = [('pyns.session', I.payload(c)) for c in cases]
-    model = driver.ask_many(reqs)
+    signal.setitimer(signal.ITIMER_REAL, 600)
+    try:
+        model = driver.ask_many(reqs)
+    except Hang:
+        driver.p.kill()
+        raise common.Infra('the PyNs model did not answer a batch of %d sessions within 600 s' % len(cases))
+    finally:
+        signal.setitimer(signal.ITIMER_REAL, 0)
     for case, m in zip(cases, model):
-        ok_py = all(I.compiles(op) for op in case['ops'] if 'pyimport' not in op)
+        ok_py = all(I.compiles(op) for op in case['ops'])
         if isinstance(m, common.Reject):
-            if ok_py:
+            if 'binds __builtins__' in str(m):
+                sink.count('rejected:rebinds-__builtins__(outside the modelled domain)')
+            elif ok_py:
                 sink.mismatch(case, {'reject': str(m)}, {'compiles': True}, 'model rejects a program CPython compiles')
             else:
                 sink.count('rejected:ill-formed-on-both-sides')
@@ -178,29 +242,51 @@ def check_cases(driver, cases, sink, known_leftover):
             continue
         msteps = m['steps']
         upto = len(msteps) - 1 if m['stopped'] else len(msteps)
+        quirk = next((i for i, op in enumerate(case['ops']) if I.inlining_quirk(op)), None)
+        if quirk is not None and quirk < upto:
+            # this CPython release may compile op `quirk` against a merged comprehension symbol (see
+            # impl_c14.inlining_quirk): the model comparison stops before it, the monitors go on
+            sink.count('cpython-3.12-comprehension-inlining-symbol-merge:comparison-stops')
+            upto = quirk
+            msteps = msteps[:upto]
+            m = dict(m, stopped=True, steps=msteps + [{'res': {'err': 'OutOfDomain'}}])
+            msteps = m['steps']
+        run_to = upto
         if m['stopped']:
-            sink.count('model-stopped:' + msteps[-1]['res'].get('err', '?'))
+            why = msteps[-1]['res'].get('err', '?')
+            sink.count('model-stopped:' + why)
+            if why == 'OutOfDomain':
+                run_to = len(case['ops'])      # the monitors do not need the model: judge the whole session
         signal.setitimer(signal.ITIMER_REAL, 20)
         try:
-            isteps, findings = I.run_impl(case, upto)
+            isteps, findings, notes = I.run_impl(case, run_to, soft_from=upto, hang=Hang)
         except Hang:
             sink.mismatch(case, msteps, 'hang', 'implementation did not finish within 20 s')
             continue
         finally:
             signal.setitimer(signal.ITIMER_REAL, 0)
+        isteps = isteps[:upto]
         facts = set()
-        for op in case['ops'][:upto]:
+        evals = 0
+        for op in case['ops'][:run_to]:
             if 'eval' in op:
                 facts |= {'py:' + f for f in I.expr_facts(op['eval'])}
                 sink.count('op:eval')
+                evals += 1
             elif 'exec' in op:
                 facts |= {'block:' + f for f in I.block_facts(op['exec'])}
                 sink.count('op:exec')
             else:
-                facts.add('pyimport')
-                sink.count('op:pyimport')
+                k = next(k for k in ('pyimport', 'ctxset', 'ctxdel', 'clearall', 'rehydrate') if k in op)
+                facts.add(k)
+                sink.count('op:' + k)
         for f in facts:
             sink.count(f)
+        sink.count(f'session:{case.get("kind")}')
+        if evals >= 2:
+            sink.count('session:two-or-more-evaluations-on-one-context')
+        for n in notes:
+            sink.count(n)
         for st in isteps:
             sink.count('outcome:' + ('ok' if 'ok' in st['res'] else st['res']['err']))
         ctxkeys = {k for k, _ in case['ctx']}
@@ -208,11 +294,10 @@ def check_cases(driver, cases, sink, known_leftover):
             sink.count('ctx:key-shadows-builtin')
         if any(k in ('save', '__builtins__') for k in ctxkeys) and any('exec' in op for op in case['ops']):
             sink.count('ctx:reserved-key-hidden-from-py-block(by design)')
-        nontrivial = bool(facts - {'py:name', 'py:const', 'py:tuple', 'pyimport'}) and upto > 0
+        nontrivial = bool(facts - {'py:name', 'py:const', 'py:tuple', 'pyimport', 'ctxset'}) and run_to > 0
         sink.case(case, nontrivial)
         for detail, sig, obs in findings:
             sink.violation(case, detail, sig, obs)
-        leftover(case, isteps, sink, known_leftover)
         mm = [strip_optional(s, isteps[i]) for i, s in enumerate(msteps[:upto])]
         if canon(mm) != canon(isteps):
             first = next((i for i in range(min(len(mm), len(isteps))) if canon(mm[i]) != canon(isteps[i])), None)
@@ -222,45 +307,6 @@ def check_cases(driver, cases, sink, known_leftover):
 def strip_optional(mstep, istep):
     """The import namespace and the raw dict slot are optional observables (private attributes)."""
     return {k: v for k, v in mstep.items() if k in istep}
-
-
-def leftover(case, isteps, sink, known):
-    """Finding: an assignment expression inside a module-level comprehension of a `!py` string stays in
-    the raw dict of context._pystring_namespace and answers later top-level reads (E4). Judged on the
-    implementation: a later `!py <name>` returns something although neither the context, nor pyimport,
-    nor builtins bind the name — or returns something other than the builtin of that name."""
-    import builtins
-    ctxkeys = {k for k, _ in case['ctx']}
-    pending = set()
-    for op, st in zip(case['ops'], isteps):
-        if 'pyimport' in op:
-            ctxkeys |= set()
-            continue
-        if 'exec' in op:
-            ctxkeys |= I.saved_names(op['exec'])
-            continue
-        e = op['eval']
-        if 'n' in e and e['n'] in pending and e['n'] not in ctxkeys and 'ok' in st['res']:
-            name = e['n']
-            imps = {k for k, _ in st.get('imps', [])}
-            if name in imps:
-                continue
-            expect = tok('bi', name) if name in builtins.__dict__ else None
-            if st['res']['ok'] != expect or expect is None:
-                detail = (f"'!py {name}' answered {st['res']['ok']} from a binding left behind by an earlier "
-                          f"expression's comprehension-scoped assignment expression")
-                if known:
-                    sink.violation(case, detail, dict(LEFTOVER_SIG), st['res'])
-                else:
-                    sink.count('finding(unlisted):walrus-in-comprehension-persists-in-namespace-dict')
-                    sink.note_unlisted(detail, case)
-        targets = set()
-
-        def f(kind, node, scope, in_comp):
-            if kind == 'walrus' and scope == 'module' and in_comp:
-                targets.add(node['w'][0])
-        I.walk_expr(e, f)
-        pending |= targets
 
 
 class Sink:
@@ -273,7 +319,6 @@ class Sink:
         self.samples = []
         self.mismatches = []
         self.violations = []
-        self.unlisted = []
 
     def count(self, k, by=1):
         self.counts[k] = self.counts.get(k, 0) + by
@@ -295,10 +340,6 @@ class Sink:
             self.violations.append((case, detail, sig, obs))
         self.count('monitor-violation')
 
-    def note_unlisted(self, detail, case):
-        if len(self.unlisted) < 3:
-            self.unlisted.append({'detail': detail, 'sources': [op.get('src') for op in case['ops']]})
-
     def into(self, res):
         for k, v in self.counts.items():
             res.count(k, v)
@@ -311,15 +352,10 @@ class Sink:
             res.mismatch(case, model, impl, note)
         for case, detail, sig, obs in self.violations:
             res.violation(case, detail, sig, obs)
-        if self.unlisted:
-            res.extra.setdefault('unlisted_findings', [])
-            for u in self.unlisted:
-                if len(res.extra['unlisted_findings']) < 3:
-                    res.extra['unlisted_findings'].append(u)
 
 
 def _worker(args):
-    seed, n, known_leftover = args
+    seed, n = args
     common.use_repo()
     signal.signal(signal.SIGALRM, _alarm)
     rng = random.Random(seed)
@@ -330,7 +366,7 @@ def _worker(args):
         done = 0
         while done < n:
             k = min(400, n - done)
-            check_cases(drv, [gen.session() for _ in range(k)], sink, known_leftover)
+            check_cases(drv, [gen.session() for _ in range(k)], sink)
             done += k
     finally:
         drv.close()
@@ -340,15 +376,19 @@ def _worker(args):
 def run(env, res):
     res.rule = ('directed sessions (every scope nesting x every namespace; assignment expressions at top level / '
                 'in comprehension / in lambda; pyimport names equal to context keys; py blocks with assignment, '
-                '+=, del, import, def+global, class, save) then random sessions: context over identifier keys '
-                '(incl. len/list/id, aliased lists), optional pyimport, 1-3 !py expressions and/or 1-2 py blocks '
-                'of 2-9 statements, expression depth <= 4, comprehensions with 1-3 for-clauses. Non-trivial = the '
-                'session uses at least one binding construct or nested scope and the model did not stop at op 0.')
-    known_leftover = any(all(k.get('match', {}).get(a) == b for a, b in LEFTOVER_SIG.items())
-                         for k in common.load_known('C14'))
+                '+=, del, import, def+global, class, save; several evaluations on one Context with context updates '
+                'in between; pickle / deepcopy / copy of the Context between pyimport, !py and py blocks; '
+                'contextclearall) then random sessions: context over identifier keys (incl. len/list/id, aliased '
+                'lists); 58%: optional pyimport, 1-3 !py expressions and/or 1-2 py blocks of 2-9 statements; 42% '
+                'mixed: 3-7 ops on ONE Context drawn from !py expression (names bound by := earlier preferred for '
+                'later reads, keys and import aliases; probes reading a name at top level / in a lambda / in a '
+                'comprehension), pyimport, rehydrate (pickle|deepcopy|copy), context update, key deletion, '
+                'contextclearall, py block; expression depth <= 4, comprehensions with 1-3 for-clauses. '
+                'Non-trivial = the session uses at least one binding construct, nested scope or non-Python op and '
+                'the model did not stop at op 0.')
     signal.signal(signal.SIGALRM, _alarm)
     sink = Sink()
-    check_cases(env.driver, directed(), sink, known_leftover)
+    check_cases(env.driver, directed(), sink)
     sink.into(res)
     res.count('directed-sessions', len(directed()))
     n = env.n(2000, 100000)
@@ -356,12 +396,12 @@ def run(env, res):
         gen = I.Gen(env.rng)
         sink = Sink()
         for start in range(0, n, 500):
-            check_cases(env.driver, [gen.session() for _ in range(min(500, n - start))], sink, known_leftover)
+            check_cases(env.driver, [gen.session() for _ in range(min(500, n - start))], sink)
         sink.into(res)
     else:
         procs = min(14, os.cpu_count() or 4)
         per = 2500
-        jobs = [(env.rng.getrandbits(48), min(per, n - s), known_leftover) for s in range(0, n, per)]
+        jobs = [(env.rng.getrandbits(48), min(per, n - s)) for s in range(0, n, per)]
         with multiprocessing.get_context('fork').Pool(procs) as pool:
             for sink in pool.imap_unordered(_worker, jobs):
                 sink.into(res)
@@ -375,8 +415,6 @@ def replay(env, res, case):
     if 'first_diverging_case' in case and case['first_diverging_case']:
         case = case['first_diverging_case']['case']
     signal.signal(signal.SIGALRM, _alarm)
-    known_leftover = any(all(k.get('match', {}).get(a) == b for a, b in LEFTOVER_SIG.items())
-                         for k in common.load_known('C14'))
     sink = Sink()
-    check_cases(env.driver, [I.render(case)], sink, known_leftover)
+    check_cases(env.driver, [I.render(case)], sink)
     sink.into(res)
